@@ -349,7 +349,7 @@ func ruleDelimiterPerColumn(c *eng.Ctx) {
 	}
 	// the delimiter value: phi/param-derived string written with WriteString inside the innermost loop
 	var delimWrites []ssa.CallInstruction
-	for _, ci := range eng.Calls(fn, false, func(n string, _ ssa.CallInstruction) bool { return strings.HasSuffix(n, ").WriteString") }) {
+	for _, ci := range eng.Calls(fn, false, func(n string, wc ssa.CallInstruction) bool { return isStringWrite(n, wc) }) {
 		arg := ci.Common().Args[len(ci.Common().Args)-1]
 		if _, isC := eng.ConstString(arg); isC {
 			continue
